@@ -23,6 +23,7 @@ import CweModel.C10.RunStackAlign
 import CweModel.C10.RunControlFlow
 import CweModel.C10.Transport
 import CweModel.C10.RunLocalsTransport
+import CweModel.C10.AliveFixpoint
 
 namespace CweModel.C10
 open CweModel CweModel.IR CweModel.Sem CweModel.C12
@@ -78,6 +79,17 @@ theorem substTrivialProgram_preserves (env : Env) (ptr align : Nat) :
   rw [himg, substTrivial_runSub env ss.1 (hp ss.1 hmem) σ fuel hσ hok hns]
   exact tracesAgree_refl _
 
+/-- **C10-dead-variables-preserves.** `remove_dead_var_assignments` on a function whose block tids are unique:
+the liveness iteration of the model reaches a post-fixpoint (`computeAliveVars_closed`), hence the pass preserves
+the observable trace under H2 and H3. -/
+theorem removeDeadSub_preserves (env : Env) (phys : VarSet) (s : Term Sub)
+    (huniq : ∀ b ∈ s.term.blocks, ∀ b' ∈ s.term.blocks, b'.tid = b.tid → b' = b)
+    (hshape : dveShapeOk s.term.blocks = true) (hregs : ∀ v ∈ env.physRegs, v ∈ phys) (σ : State) (fuel : Nat)
+    (hloc : ∀ b bs, s.term.blocks = b :: bs → RunLocals env phys s.term.blocks fuel b.tid σ 0 [])
+    (hns : NoStuck (runSub env s.term σ fuel)) :
+    (runSub env (removeDeadSub phys s).term σ fuel).map observable = (runSub env s.term σ fuel).map observable :=
+  removeDeadSub_runSub env phys s hshape (computeAliveVars_closed phys _ huniq) hregs σ fuel hloc hns
+
 /-! ### the composition of the five stages
 
 `NormalizeOptimizePreserves` above compares raw traces. That is more than the property says and more than dead
@@ -118,8 +130,10 @@ theorem stage2_subs (p : Program) : (stage2 p).subs = p.subs.map (stage2Sub p) :
     the first of two conditional, no `CallOther` with a return site — recorded known limitation —, calls with a
     return site target an extern symbol or a function with a returning block) and `dveShapeOk` (a conditional
     jump is followed by a jump that always has a CFG edge);
-  * the two fuelled fixpoint iterations of the MODEL reached a post-fixpoint (executable conditions on outputs
-    of the model; the driver evaluates them on every generated case). -/
+  * the fuelled iteration `computeTables` of the MODEL of expression propagation reached a post-fixpoint
+    (executable conditions; the driver evaluates them on every generated case, and the same conditions for the
+    tables of the REAL fixpoint). The iteration of dead variable elimination is proved to reach one
+    (`computeAliveVars_closed`). -/
 structure OptimizeHyp (env : Env) (arch : String) (phys : VarSet) (p : Program) : Prop where
   arch64 : arch = "x86_64"
   sp8 : env.sp.size = 8
@@ -128,7 +142,15 @@ structure OptimizeHyp (env : Env) (arch : String) (phys : VarSet) (p : Program) 
   shape : ∀ s ∈ p.subs, dveShapeOk s.term.blocks = true
   tablesClosed : tablesClosed (mergeAssignmentsProgram p) (computeTables (mergeAssignmentsProgram p)) = true
   tablesReach : tablesReach (mergeAssignmentsProgram p) (computeTables (mergeAssignmentsProgram p)) = true
-  alive₂ : ∀ s ∈ (stage2 p).subs, aliveClosed phys s.term.blocks (computeAliveVars phys s.term.blocks) = true
+
+/-- block tids stay unique (by value) inside every function after the first two stages -/
+theorem blkTidsUnique_stage2 {p : Program} (h : CF.BlkTidsUnique p) : CF.BlkTidsUnique (stage2 p) := by
+  have : stage2 p = mapCfg (fun _ => mapBlkExprs substTrivial)
+      (mapCfg (fun _ => propagateBlockWith (computeTables (mergeAssignmentsProgram p)))
+        (mapCfg (fun _ => mergeDefAssignmentsToSameVar) p)) := rfl
+  rw [this]
+  exact blkTidsUnique_keeps keepsCfg_trivial (blkTidsUnique_keeps (keepsCfg_propagate _)
+    (blkTidsUnique_keeps keepsCfg_merge h))
 
 /-- the jump shapes needed by dead variable elimination are kept by the first two stages -/
 theorem dveShapeOk_stage2Sub (p : Program) (s : Term Sub) (h : dveShapeOk s.term.blocks = true) :
@@ -228,8 +250,12 @@ theorem normalizeOptimize_preserves_partial (env : Env) (arch : String) (phys : 
   -- stage 3: dead variable elimination (observable traces)
   have hm₂ : stage2Sub p s ∈ (stage2 p).subs := by
     rw [stage2_subs]; exact List.mem_map.mpr ⟨s, hmem, rfl⟩
+  have halive : aliveClosed phys (stage2Sub p s).term.blocks
+      (computeAliveVars phys (stage2Sub p s).term.blocks) = true :=
+    computeAliveVars_closed phys _ (fun b hb b' hb' heq =>
+      (blkTidsUnique_stage2 H.cf.blkTids _ hm₂ b hb _ hm₂ b' hb' heq).2)
   have e₃ := removeDeadSub_runSub env phys (stage2Sub p s) (dveShapeOk_stage2Sub p s (H.shape s hmem))
-    (H.alive₂ _ hm₂) H.regs σ fuel loc₂ (by rw [e₂]; exact hns)
+    halive H.regs σ fuel loc₂ (by rw [e₂]; exact hns)
   have hns₃ : NoStuck (runSub env (removeDeadSub phys (stage2Sub p s)).term σ fuel) :=
     NoStuck.of_map_observable e₃ (by rw [e₂]; exact hns)
   -- stage 4: control flow propagation (the optimised run needs less fuel)
@@ -319,7 +345,7 @@ private def xP : Program :=
 /-- the program satisfies the hypotheses of the composition theorem … -/
 example : WellSizedProgram xP xEnv.sp.size := by decide
 example : OptimizeHyp xEnv "x86_64" xPhys xP :=
-  ⟨rfl, rfl, by decide, cfOkB_sound (by decide), by decide, by decide, by decide, by decide⟩
+  ⟨rfl, rfl, by decide, cfOkB_sound (by decide), by decide, by decide, by decide⟩
 
 /-- … all three optimisations happen … -/
 example : (normalizeOptimize "x86_64" xRsp xPhys xP).subs.map
